@@ -166,9 +166,14 @@ func VH_C05_dashCanonical_Q() {
 	}
 }
 
-// ---- C05-H3: the Dash driver on concrete axis-aligned polylines, symbolic pattern/offset ----
-// Oracle (pointwise): a point at arc length x of a subpath (x symbolic, at least 1e-6 away from
-// every dash boundary and from the subpath ends) lies on the output iff the pattern is "on" at x.
+// ---- C05-H3: the Dash driver on concrete axis-aligned polylines, concrete pattern, symbolic offset ----
+// Geometry and pattern are concrete (chosen from small tables that include several subpaths with
+// different closedness and a pattern of odd length); the offset and the probe position are
+// symbolic reals, so every phase of the pattern against every shape is covered.
+// Oracles: (1) pointwise: a point at arc length x of a subpath (at least 1e-6 away from every dash
+// boundary and vertex) lies on the output iff the pattern is "on" at x; (2) the number of output
+// pieces of each input subpath = number of drawn stretches, where a closed subpath that starts
+// and ends inside a dash has the two parts joined; (3) receiver/pattern unchanged, well-formed.
 
 type vhC05Shape struct {
 	pts    []Point // vertices of one subpath
@@ -176,13 +181,35 @@ type vhC05Shape struct {
 }
 
 func vhC05Shapes(k int) []vhC05Shape {
+	openL := vhC05Shape{pts: []Point{{0, 0}, {2, 0}, {2, 1}}}
+	square := vhC05Shape{pts: []Point{{20, 20}, {21, 20}, {21, 21}, {20, 21}}, closed: true}
+	seg := vhC05Shape{pts: []Point{{40, 40}, {40, 42}}}
 	switch k {
-	case 0: // open L
-		return []vhC05Shape{{pts: []Point{{0, 0}, {2, 0}, {2, 1}}}}
-	case 1: // closed unit square (Close draws the last edge)
-		return []vhC05Shape{{pts: []Point{{0, 0}, {1, 0}, {1, 1}, {0, 1}}, closed: true}}
-	default: // two subpaths: the pattern restarts on each
-		return []vhC05Shape{{pts: []Point{{0, 0}, {2, 0}, {2, 1}}}, {pts: []Point{{10, 10}, {10, 12}}}}
+	case 0:
+		return []vhC05Shape{openL}
+	case 1:
+		return []vhC05Shape{square}
+	case 2:
+		return []vhC05Shape{openL, seg}
+	case 3:
+		return []vhC05Shape{square, openL} // closedness differs from the last subpath's
+	default:
+		return []vhC05Shape{openL, square}
+	}
+}
+
+func vhC05Patterns(k int) []float64 {
+	switch k {
+	case 0:
+		return []float64{1, 0.5}
+	case 1:
+		return []float64{0.5, 1.5}
+	case 2:
+		return []float64{3, 1}
+	case 3:
+		return []float64{0.75} // odd length: doubled
+	default:
+		return []float64{0.5, 0.25, 1, 0.25}
 	}
 }
 
@@ -201,7 +228,7 @@ func vhC05OnSeg(a, b, p Point) bool {
 }
 
 func VH_C05_dashdriver_Q() {
-	shapes := vhC05Shapes(vChoose(0, 2))
+	shapes := vhC05Shapes(vChoose(0, 4))
 	p := &Path{}
 	for _, s := range shapes {
 		p.MoveTo(s.pts[0].X, s.pts[0].Y)
@@ -213,31 +240,56 @@ func VH_C05_dashdriver_Q() {
 		}
 	}
 	before := vhCopyData(p.d)
-	n := 2
-	if vTier() == 1 {
-		n = vChoose(1, 3)
-	}
-	d := make([]float64, n)
+	d := vhC05Patterns(vChoose(0, 2+2*vTier()))
+	n := len(d)
 	sum := 0.0
 	for i := range d {
-		d[i] = vNondetDyadic(6, 3)
-		vAssume(0 < d[i] && d[i] <= 4)
 		sum += d[i]
 	}
-	// keep away from the repeated-pattern collapse tolerance: entries differ by 0 or >= 1/8 anyway
 	P := sum
 	if n%2 == 1 {
 		P = 2 * sum
 	}
-	off := vNondetDyadic(8, 3)
+	off := vNondetF64()
 	vAssume(-2*P <= off && off <= 2*P)
 	dArg := vhCopyData(d)
 	q := p.Dash(off, dArg...)
 	vAssert("C05.dash.receiver_unchanged", vhSameData(p.d, before))
 	vAssert("C05.dash.pattern_unchanged", vhSameData(dArg, d))
 	vAssert("C05.dash.wellformed", vhWFOut(q))
+	subs, ok := vhDecode(q.d)
+	vAssert("C05.dash.decodable", ok)
 
-	// pick a subpath and a position on it
+	// pattern phase at the start of every subpath: u0 = off mod P
+	u0 := off
+	for k := 0; k < 3; k++ {
+		if u0 < 0 {
+			u0 += P
+		}
+	}
+	for k := 0; k < 3; k++ {
+		if u0 >= P {
+			u0 -= P
+		}
+	}
+	dd := d
+	if n%2 == 1 {
+		dd = append(append([]float64{}, d...), d...)
+	}
+	// general position for the whole check: no dash boundary within 1e-6 of the start of a subpath
+	accs := []float64{0}
+	acc := 0.0
+	for i := range dd {
+		acc += dd[i]
+		accs = append(accs, acc)
+	}
+	gp := true
+	for _, a := range accs {
+		gp = gp && math.Abs(u0-a) >= 1e-6
+	}
+	vAssume(gp)
+
+	// pick a subpath
 	si := vChoose(0, len(shapes)-1)
 	s := shapes[si]
 	pts := s.pts
@@ -248,33 +300,56 @@ func VH_C05_dashdriver_Q() {
 	for k := 0; k+1 < len(pts); k++ {
 		L += math.Abs(pts[k+1].X-pts[k].X) + math.Abs(pts[k+1].Y-pts[k].Y)
 	}
+	// boundaries of the pattern inside (0,L): positions b with (u0+b) mod P in accs
+	nb := 0
+	endClear := true
+	for rep := 0; rep < 8; rep++ { // L <= 4, P >= 1.5: at most 4 periods
+		for j := 1; j < len(accs); j++ {
+			b := float64(rep)*P + accs[j] - u0
+			if 0 < b && b < L {
+				nb++
+			}
+			endClear = endClear && math.Abs(b-L) >= 1e-6
+		}
+	}
+	vAssume(endClear)
+	onStart := vhOnPattern(off, d, 0)
+	onEnd := vhOnPattern(off, d, L)
+	want := (nb + 1) / 2
+	if onStart {
+		want = (nb + 2) / 2
+	}
+	if s.closed && onStart && onEnd && nb > 0 {
+		want-- // the two parts around the start vertex are joined
+	}
+	got := 0
+	lo, hi := s.pts[0].X-5, s.pts[0].X+5 // subpaths are 20 apart
+	for _, sb := range subs {
+		if len(sb.segs) > 0 && lo <= sb.start.X && sb.start.X <= hi {
+			got++
+		}
+	}
+	vAssert("C05.dash.piece_count", got == want)
+
+	// pointwise
 	x := vNondetF64()
 	vAssume(1e-6 <= x && x <= L-1e-6)
-	// general position: x is at least 1e-6 away from every dash boundary (positions off+x = k*P + acc_i)
-	// and from every vertex
 	u := off + x
-	for k := 0; k < 6; k++ {
+	for k := 0; k < 4; k++ {
 		if u < 0 {
 			u += P
 		}
 	}
-	for k := 0; k < 8; k++ {
+	for k := 0; k < 6; k++ {
 		if u >= P {
 			u -= P
 		}
 	}
-	dd := d
-	if n%2 == 1 {
-		dd = append(append([]float64{}, d...), d...)
-	}
-	acc := 0.0
-	clear := u >= 1e-6 && u <= P-1e-6
-	for i := range dd {
-		acc += dd[i]
-		clear = clear && math.Abs(u-acc) >= 1e-6
+	clear := true
+	for _, a := range accs {
+		clear = clear && math.Abs(u-a) >= 1e-6
 	}
 	vAssume(clear)
-	// the point at arc length x
 	var pt Point
 	T := 0.0
 	awayFromVertex := true
@@ -289,15 +364,12 @@ func VH_C05_dashdriver_Q() {
 		awayFromVertex = awayFromVertex && math.Abs(x-T) >= 1e-6
 	}
 	vAssume(awayFromVertex)
-	want := vhOnPattern(off, d, x)
-	// is pt on the output?
-	subs, ok := vhDecode(q.d)
-	vAssert("C05.dash.decodable", ok)
+	wantOn := vhOnPattern(off, d, x)
 	covered := false
 	for _, sub := range subs {
 		for _, sg := range sub.segs {
 			covered = covered || vhC05OnSeg(sg.start, sg.end, pt)
 		}
 	}
-	vAssert("C05.dash.onoff_pointwise", covered == want)
+	vAssert("C05.dash.onoff_pointwise", covered == wantOn)
 }
